@@ -458,11 +458,20 @@ class Runner:
             if "each" not in modes:
                 continue
             _, each = modes["each"]
+            # An invocation that RAISES (pyanalyze itself crashes, e.g. in the attribute checker's
+            # final pass) delivers no diagnostics for any of its files.  When a file of the group makes
+            # its own single-file invocation raise the same way, the crash of the joint invocation is
+            # attributable to that file alone and says nothing about the other files; a joint
+            # invocation that raises although no member does so alone stays a lead.
+            each_raised = {o.get("rc") for o in each.values() if isinstance(o.get("rc"), str) and o["rc"].startswith("raised:")}
             for mode, (job, merged) in modes.items():
                 if mode == "each":
                     continue
                 for pid, o in merged.items():
                     if pid == "<other>" or pid not in usable:
+                        continue
+                    if isinstance(o.get("rc"), str) and o["rc"].startswith("raised:") and o["rc"] in each_raised:
+                        self.stats["file_route_joint_invocation_raised_like_member"] += 1
                         continue
                     if pid in each:
                         d = oracle.compare(each[pid], o)
